@@ -72,6 +72,7 @@ def fields(m, obs, power=None):
     E = -1j * omega * MU0 / (4 * np.pi) * A - gradPhi / (4 * np.pi * EPS0)
     H = curlA / (4 * np.pi)
     if power is not None:
-        f = np.sqrt(power / m.power)
+        from mcx import geom
+        f = np.sqrt(power / geom.input_power(m))
         E, H = E * f, H * f
     return E, H
